@@ -30,13 +30,13 @@ func (valdec listDecoder) Decode(dec *Decoder, p interface{}, tag byte) {
 	case TagEmpty:
 		*plist = list.New()
 	case TagList:
-		count := dec.ReadInt()
+		count := dec.ReadCount()
 		l := list.New()
 		*plist = l
 		if !dec.IsSimple() {
 			dec.refer.Add(l)
 		}
-		for i := 0; i < count; i++ {
+		for i := 0; i < count && dec.Error == nil; i++ {
 			var e interface{}
 			dec.decodeInterface(dec.NextByte(), &e)
 			l.PushBack(e)
